@@ -7,9 +7,9 @@ MC = {}
 def sset(xs):
     return "{" + ", ".join('"%s"' % x for x in xs) + "}"
 
-def block_cfg(name, prop, kinds, dirs, bs, w, maxu, objs, invs):
-    txt = "CONSTANTS\n  KINDS = %s\n  DIRS = %s\n  BS = %d\n  W = %d\n  MAXU = %d\n  OBJS = %s\n  PROP = \"%s\"\n" % (
-        sset(kinds), sset(dirs), bs, w, maxu, sset(objs), prop)
+def block_cfg(name, prop, kinds, dirs, bs, w, maxu, objs, invs, pert=(1,)):
+    txt = "CONSTANTS\n  KINDS = %s\n  DIRS = %s\n  BS = %d\n  W = %d\n  MAXU = %d\n  OBJS = %s\n  PROP = \"%s\"\n  PERT = {%s}\n" % (
+        sset(kinds), sset(dirs), bs, w, maxu, sset(objs), prop, ", ".join(map(str, pert)))
     txt += "SPECIFICATION Spec\nINVARIANTS %s NoJunk EmitReplay\nCHECK_DEADLOCK FALSE\n" % " ".join(invs)
     open(os.path.join(HERE, name + ".cfg"), "w").write(txt)
 
@@ -52,6 +52,19 @@ block_cfg("MC_Block_C16_q", "C16", ALLK, ED, 2, 2, 2, ["a", "c"], ["C16", "C02",
 add("C16", "MC_Block.tla", "MC_Block_C16_q", ("quick", "thorough"), 900, ["ActA", "ActC", "ActCln", "ActExp"])
 block_cfg("MC_Block_C16_t1", "C16", ALLK, ED, 2, 2, 3, ["a", "c"], ["C16", "C02", "C03"])
 add("C16", "MC_Block.tla", "MC_Block_C16_t1", ("thorough",), 3000, ["ActA", "ActC", "ActCln", "ActExp"])
+
+# error propagation / data dependence (C15): "b" = twin of "a" whose input differs in one unit; symbolic support table
+block_cfg("MC_Block_C15_q", "C15", ALLK, ["dec"], 2, 2, 3, ["a", "b"], ["C15", "C02", "C03"], pert=(1, 2))
+add("C15", "MC_Block.tla", "MC_Block_C15_q", ("quick", "thorough"), 900, ["ActA", "ActB", "ActExp"])
+block_cfg("MC_Block_C15_t1", "C15", ALLK, ["dec"], 2, 2, 4, ["a", "b"], ["C15", "C02", "C03"], pert=(1, 2, 3))
+add("C15", "MC_Block.tla", "MC_Block_C15_t1", ("thorough",), 3000, ["ActA", "ActB", "ActExp"])
+block_cfg("MC_Block_C15_t2", "C15", ["cbc", "cfb", "cfb8"], ["dec"], 1, 3, 5, ["a", "b"], ["C15", "C02", "C03"], pert=(1, 3))
+add("C15", "MC_Block.tla", "MC_Block_C15_t2", ("thorough",), 3000, ["ActA", "ActB", "ActExp"])
+# front-ends (C14): OFB used as block encryptor and as block decryptor is one function; same for the other kinds' twins
+block_cfg("MC_Block_C14_q", "C14", ["ofbblk"], ED, 2, 2, 3, ["a", "u"], ["C14", "C03", "C01"])
+add("C14", "MC_Block.tla", "MC_Block_C14_q", ("quick", "thorough"), 900, ["ActA", "ActU", "ActExp"])
+block_cfg("MC_Block_C14_t1", "C14", ["ofbblk"], ED, 2, 2, 4, ["a", "u"], ["C14", "C03", "C01"])
+add("C14", "MC_Block.tla", "MC_Block_C14_t1", ("thorough",), 3000, ["ActA", "ActU", "ActExp"])
 
 # --- buffered CFB: ImplBuf (Impl.tla) vs the lazy machine, every cut, resumption at any byte ----------------------
 def buf_cfg(name, prop, bs, maxb, objs, invs):
